@@ -17,6 +17,7 @@ import (
 	"sort"
 	"strings"
 	"sync"
+	"sync/atomic"
 	"syscall"
 	"time"
 
@@ -53,6 +54,49 @@ type sessionResult struct {
 	Stderr  string `json:"stderr"`  // tail
 	SrvErr  string `json:"srv_err"` // server-side handler error, if observable
 	Elapsed int    `json:"elapsed_ms"`
+	Bytes   int64  `json:"bytes"` // bytes on the wire, both directions (-1: not observable, local copies)
+}
+
+type countConn struct {
+	net.Conn
+	n *atomic.Int64
+}
+
+func (c countConn) Read(p []byte) (int, error) {
+	n, err := c.Conn.Read(p)
+	c.n.Add(int64(n))
+	return n, err
+}
+func (c countConn) Write(p []byte) (int, error) {
+	n, err := c.Conn.Write(p)
+	c.n.Add(int64(n))
+	return n, err
+}
+
+type countLn struct {
+	net.Listener
+	n *atomic.Int64
+}
+
+func (l countLn) Accept() (net.Conn, error) {
+	c, err := l.Listener.Accept()
+	if err != nil {
+		return nil, err
+	}
+	return countConn{c, l.n}, nil
+}
+
+type countRW struct {
+	r io.Reader
+	w io.Writer
+	n *atomic.Int64
+}
+
+func (c countRW) Read(p []byte) (int, error) { n, err := c.r.Read(p); c.n.Add(int64(n)); return n, err }
+func (c countRW) Write(p []byte) (int, error) {
+	n, err := c.w.Write(p)
+	c.n.Add(int64(n))
+	return n, err
 }
 
 func runSessionInProcess(sp sessionSpec) (res sessionResult) {
@@ -65,6 +109,13 @@ func runSessionInProcess(sp sessionSpec) (res sessionResult) {
 	ctx, cancel := context.WithCancel(context.Background())
 	defer cancel()
 	var err error
+	var wire atomic.Int64
+	defer func() {
+		res.Bytes = wire.Load()
+		if sp.Arr == "local" {
+			res.Bytes = -1
+		}
+	}()
 	switch sp.Arr {
 	case "local":
 		var srcs []string
@@ -94,7 +145,7 @@ func runSessionInProcess(sp sessionSpec) (res sessionResult) {
 			res.Err, res.Outcome = lerr.Error(), "error"
 			return
 		}
-		go srv.Serve(ctx, ln)
+		go srv.Serve(ctx, countLn{ln, &wire})
 		url := "rsync://" + ln.Addr().String() + "/mod/"
 		var args []string
 		if sp.Arr == "pull" {
@@ -150,10 +201,7 @@ func runSessionInProcess(sp sessionSpec) (res sessionResult) {
 			c2sR.Close()
 			srvDone <- e
 		}()
-		_, err = cl.Run(ctx, struct {
-			io.Reader
-			io.Writer
-		}{s2cR, c2sW}, paths)
+		_, err = cl.Run(ctx, countRW{s2cR, c2sW, &wire}, paths)
 		c2sW.Close()
 		s2cR.Close()
 		select {
